@@ -372,6 +372,28 @@ func runEvalCase(c Case) (Result, string) {
 			}
 		}
 	}
+	// C11: a JSON text denotes itself (oracle: encoding/json on the same text)
+	for _, t := range c.Tags {
+		if t == "jsonself" {
+			var want interface{}
+			dec := json.NewDecoder(strings.NewReader(c.Expr))
+			if err := dec.Decode(&want); err != nil {
+				r.Direct["jsonself"] = "ok"
+				break
+			}
+			var i1, i2 wireInfo
+			ww := "V " + valueWire(want, &i1)
+			if want == nil {
+				ww = "V N"
+			}
+			got := o.wire
+			if got == ww || (strings.HasPrefix(got, "V ") && "V "+valueWire(o.value, &i2) == ww) {
+				r.Direct["jsonself"] = "ok"
+			} else {
+				r.Direct["jsonself"] = "evaluates to " + got + " but the JSON text denotes " + ww
+			}
+		}
+	}
 	line := ""
 	if root0 != "" {
 		line = c.ID + "|E|" + root0 + "|" + inputWire(saved) + "|" + strconv.FormatInt(clock, 10) + "|"
